@@ -697,7 +697,7 @@ def eval_dyad_minimum(a, b, backend):
                     1.0&1.1  -->  1.0
 
     """
-    return backend.np.minimum(a, b)
+    return backend.vec_fn2(a, b, backend.np.minimum)
 
 
 def eval_dyad_more(a, b, backend):
